@@ -191,6 +191,7 @@ void run_pool(const Case &c) {
         for (auto &t : tasks) if (t.runs == 1 && !t.done) pviolation("C07", "RUN_INCOMPLETE", "task %d began but never finished", t.id);
     }
     vsched::end();
+    if (vsched::spurious_wakeups()) label("spurious_wakeup");
     { std::string w = "W"; for (uint8_t x : vsched::widths()) w += (char)('0' + (x > 9 ? 9 : x)); aux(w); }
     int ran = 0; for (auto &t : tasks) ran += t.runs;
     label_n("tasks", (long)tasks.size()); label_n("tasks_ran", ran); label_n("switches", (long)vsched::switches());
@@ -309,6 +310,7 @@ void run_thread(const Case &c) {
         if (copies_alive != 0) pviolation("C20", "CALLABLE_LEAK", "%d copies of the callable are still alive after the Thread object was destroyed", copies_alive);
     }
     vsched::end();
+    if (vsched::spurious_wakeups()) label("spurious_wakeup");
     { std::string w = "W"; for (uint8_t x : vsched::widths()) w += (char)('0' + (x > 9 ? 9 : x)); aux(w); }
     if (child_began_after_return) { label("child_ran_after_start_returned"); nontrivial(); }
 }
